@@ -80,7 +80,7 @@ def run(ctx):
             "C16 (the recorded digests are digests of the complete file content) and C04 (committed trees are exact) are used as given"],
         "evaluations": n_cases, "distinct_nontrivial": len(n_nontrivial),
         "rule": "committed datasets (flat/nested/multi-writer, 1..13 algorithms, fb/npz[/tfrec]) x every reachable list file, shard file and the description x "
-                "{bit flip first/middle/last byte, truncate to 0/half/len-1, extend, delete, swap with a sibling, roll back to an earlier version}; each case distinct by (dataset, file, tamper)",
+                "{bit flip first/middle/last byte and at 7 interior offsets, LF->CRLF / LF->CR / extra JSON whitespace / BOM (changes a text reader would normalise), truncate to 0/half/len-1, extend, delete, swap with a sibling, roll back to an earlier version}; each case distinct by (dataset, file, tamper)",
         "tamper_kinds": kinds, "datasets": len(jobs),
         "traces_validated_against_impl": n_cases,
     })
